@@ -456,7 +456,7 @@ Proof.
     + rewrite (SClen _ _ _ HC1).
       assert (HL : lenN (spliceN V (h_off h) (buf_filled (h_buf h))) = h_total h)
         by (rewrite lenN_spliceN; lia).
-      rewrite HL.
+      rewrite HL, N.max_id.
       eexists _, _. split; [reflexivity|]. cbv beta iota.
       split; [congruence|]. unfold absV. rewrite Ed. split; [exact HC1|].
       destruct h as [hid tot [data pos cap mx] off dirty]. projs_all.
